@@ -419,7 +419,7 @@ func c13GenScenario(r *rng, srcs []*moduleSource) *C13Scenario {
 			sc.Tasks = append(sc.Tasks, calls)
 		}
 	}
-	sc.Tape = genTape(r, TapeParams{NSched: 2048, MeanGap: gapChoices[r.intn(len(gapChoices))], EdgePct: edgeChoices[r.intn(len(edgeChoices))], EarlyPct: 50})
+	sc.Tape = genTape(r, TapeParams{NSched: 2048, MeanGap: gapChoices[r.intn(len(gapChoices))], EdgePct: edgeChoices[r.intn(len(edgeChoices))], EarlyPct: 50, NPool: 512})
 	sc.Tape.StepCap = 20000000
 	return sc
 }
@@ -491,6 +491,13 @@ func c13Count(sum *Summary, sc *C13Scenario, o *c13Outcome) {
 	sum.Counters["simulated Lock calls"] += s.Locks
 	sum.Counters["blocked-on-mutex events"] += s.Blocked
 	sum.Counters["scheduler decisions"] += s.Decisions
+	if s.PoolGets > 0 {
+		sum.Counters["sync.Pool gets under simulator control"] += s.PoolGets
+		sum.Counters["sync.Pool gets that reused an object put back earlier"] += s.PoolReuses
+	}
+	if s.Spawned > 0 {
+		sum.Counters["goroutines started by the code under test (became tasks)"] += s.Spawned
+	}
 	if s.ParkedHolding > 0 {
 		sum.Probes["a task was parked while holding Module.mu / Func.mu"]++
 	}
@@ -665,6 +672,11 @@ func c13Candidates(raw json.RawMessage) []interface{} {
 	for _, g := range shrinkStream(sc.Tape.Edges) {
 		c := clone()
 		c.Tape.Edges = g
+		out = append(out, c)
+	}
+	if len(sc.Tape.Pools) > 0 {
+		c := clone()
+		c.Tape.Pools = nil
 		out = append(out, c)
 	}
 	return out
